@@ -136,6 +136,27 @@ pub fn lambda_body_needs_parens(body: &SpannedExpr) -> bool {
     }
 }
 
+/// The same question for a body that is only available as source text.
+fn body_source_needs_parens(body: &str) -> bool {
+    use crate::expressions::pairs_to_expr;
+    use crate::parser::{Rule, get_pairs};
+
+    let Ok(pairs) = get_pairs(body) else {
+        return false;
+    };
+    let mut statements = pairs.filter(|pair| pair.as_rule() == Rule::statement);
+    let (Some(statement), None) = (statements.next(), statements.next()) else {
+        return false;
+    };
+    let Some(inner) = statement.into_inner().next() else {
+        return false;
+    };
+    if inner.as_rule() != Rule::expression {
+        return false;
+    }
+    pairs_to_expr(inner.into_inner()).is_ok_and(|expr| lambda_body_needs_parens(&expr))
+}
+
 /// Check if a child expression needs parentheses when used as an operand of a binary operation
 pub fn needs_parens_in_binop(
     parent_op: &BinaryOp,
@@ -500,8 +521,14 @@ fn serializable_value_to_source(value: &SerializableValue) -> String {
         }
         SerializableValue::Lambda(lambda_def) => {
             let args_str: Vec<String> = lambda_def.args.iter().map(lambda_arg_to_source).collect();
-            // Wrap in parentheses so it can be used in call expressions
-            format!("(({}) => {})", args_str.join(", "), lambda_def.body)
+            // Wrap in parentheses so it can be used in call expressions. The body is a source
+            // text; when it has `via`, `into` or `where` at its top level an unparenthesised
+            // lambda body would end there, so it gets its own parentheses.
+            let body = parenthesize(
+                lambda_def.body.clone(),
+                body_source_needs_parens(&lambda_def.body),
+            );
+            format!("(({}) => {})", args_str.join(", "), body)
         }
         SerializableValue::BuiltIn(name) => name.clone(),
     }
